@@ -68,9 +68,13 @@ int Futex::wake_all() noexcept {
   }
   // Resume when remove nodes and get their ownership successfully.
   int waked = 0;
-  for (auto node = head; node != nullptr; node = node->next) {
+  for (auto node = head; node != nullptr;) {
+    // Read next before release: the slot holding this node can be reused by
+    // another waiter as soon as it is released
+    auto next_node = node->next;
     node->promise->resume(node->handle);
     box.finish_released(node->id);
+    node = next_node;
     waked++;
   }
   return waked;
